@@ -16,14 +16,20 @@ CPre(e) ==
       [] IsOverflow(e) -> TRUE
       [] e.op = "cx"   -> /\ e.name = lk /\ e.ring \in NumTags \cup PolyTags /\ ParamsOK(e.ring, e.h, e.t)
                           /\ (e.ring \in NumTags /\ (e.h # 0 \/ e.t # 0)) => Relevant(polys, e.ring, e.red, e.h, e.t) # {}
+      [] e.op = "bigr" -> e.name = lk /\ e.h \in Int /\ e.t \in Int /\ e.route \in {"new", "into"}
       [] OTHER -> FALSE
 
 CStep(e) ==
     \/ /\ e.res = "ok"
        /\ CASE e.op = "link" -> NewLink(e.name)
             [] e.op = "cx"   -> \E C \in {Dec(e.ring, e.c)} : Cx(e.ring, e.red, e.h, e.t, C)
+            \* a bigraded complex over numeric parameters: whatever is handed out splits by (i, j) with a differential of
+            \* bidegree (1, 0) (every term of d x lies in C[i+1, j]), d.d = 0 and its matrices can be assembled
+            [] e.op = "bigr" -> e.homog = TRUE /\ e.dd0 = TRUE /\ UNCHANGED cvars
             [] OTHER -> FALSE
     \/ IsOverflow(e) /\ UNCHANGED cvars
+    \* ... or the request is refused (numeric h, t of degree 0 make d inhomogeneous unless both vanish): never refused at (0, 0)
+    \/ e.op = "bigr" /\ e.res = "rej" /\ (e.h # 0 \/ e.t # 0) /\ UNCHANGED cvars
 
 \* ---- diagnosis of a rejected event from the accepted prefix
 LastLink(Rec, d) == CHOOSE m \in 1..d : Rec[m].op = "link" /\ \A m2 \in (m + 1)..d : Rec[m2].op # "link"
